@@ -1,7 +1,7 @@
 (* C18 — Signal injection conserves counts and produces only valid, relocated
    events.  Statements only; every proof is `exact <lemma>`. *)
 From Coq Require Import Reals ZArith List Bool Lia.
-From Sky Require Import Num NumR Result PyList G_inject M_Inject S_Inject P_Inject P_InjectR P_InjectMC.
+From Sky Require Import Num NumR Result PyList G_inject M_Inject S_Inject P_Inject P_InjectR P_InjectMC P_InjectExt.
 Import ListNotations.
 Open Scope Z_scope.
 
@@ -125,6 +125,130 @@ Theorem C18_additive : forall (erf : R -> R) (a b refN : R) (groups : list (R * 
 Proof. exact mu2flux_additive. Qed.
 Print Assumptions C18_additive.
 
+(* ==== deepening: the path a user calls, as a whole ==== *)
+
+(* per-dataset counts: the keys of the result are exactly the datasets of the
+   first draw, and each dataset returns as many events as the first draw gave
+   it (the redraw keeps dataset and group) *)
+Theorem C18_per_dataset : forall (rng : Type) (choice : rng -> list Z -> nat -> list nat * rng)
+  (post : Z -> Z -> Z -> Z -> list Z),
+  choice_contract choice ->
+  forall fuel g tbl dss n_signal n out g',
+  generate rng choice post fuel g tbl dss n_signal = Ok (n, out, g') ->
+  exists meta,
+    lookup tbl (fst (choice g (map c_wn tbl) (Z.to_nat n_signal))) = Ok meta
+    /\ map fst out = zuniq (map c_ds meta)
+    /\ (forall ds evs, In (ds, evs) out -> zlen evs = zlen (filter (fun c => c_ds c =? ds) meta)).
+Proof. exact generate_per_dataset_thm. Qed.
+Print Assumptions C18_per_dataset.
+
+(* source batches of calc_source_signal_mc_event_flux: any batch size > 0
+   gives the unbatched table (seeded C18-3) *)
+Theorem C18_batched : forall bs hi h di d,
+  0 < bs -> cands_for_b bs hi h di d = cands_for hi h di d.
+Proof. exact cands_for_b_eq. Qed.
+Print Assumptions C18_batched.
+
+(* the relocation loop of signal_event_post_sampling_processing, with the
+   rotation as the uninterpreted [rot]: every event is relocated exactly once,
+   to the source named by its own meta entry, i.e. the source of its candidate
+   (seeded C18-6) *)
+Theorem C18_relocation : forall (S E : Type) (rot : S -> E -> E) (srcs : list S) (meta : list Z) (evs r : list E),
+  post_process S E rot srcs meta evs = Ok r ->
+  length meta = length evs /\ length r = length evs
+  /\ forall i m e, nth_error meta i = Some m -> nth_error evs i = Some e ->
+       exists s, py_get srcs m = Ok s /\ nth_error r i = Some (rot s e).
+Proof. exact post_process_spec. Qed.
+Print Assumptions C18_relocation.
+
+(* the generator object under change_shg_mgr / generate histories: table and
+   sampler are rebuilt together, so after every successful history the table is
+   the one of the current sources and the sampler holds exactly its weights *)
+Theorem C18_machine_invariant : forall (rng : Type) (choice : rng -> list Z -> nat -> list nat * rng)
+  (post : Z -> Z -> Z -> Z -> list Z) (pois : rng -> Z -> Z * rng) fuel ops st g st' g' outs,
+  (construct (g_shgs st) (g_dss st) = Ok (g_tbl st) /\ g_p st = map c_wn (g_tbl st)) ->
+  mc_run rng choice post pois fuel st g ops = Ok (st', g', outs) ->
+  (construct (g_shgs st') (g_dss st') = Ok (g_tbl st') /\ g_p st' = map c_wn (g_tbl st'))
+  /\ g_dss st' = g_dss st.
+Proof. exact mc_run_ok. Qed.
+Print Assumptions C18_machine_invariant.
+
+(* a zero factor gives a zero weight: a candidate of non-zero weight has a
+   non-zero mcweight, live-time, flux and (when source weights are given) a
+   non-zero source weight *)
+Theorem C18_zero_weight_factors : forall shgs dss c,
+  cand_sound shgs dss c -> c_wn c <> 0 -> cand_factors_nonzero shgs dss c.
+Proof. exact cand_factors. Qed.
+Print Assumptions C18_zero_weight_factors.
+
+(* END TO END, MCMultiDatasetSignalGenerator: after any successful history of
+   change_shg_mgr / generate_signal_events calls, a generate call (poisson or
+   not; the Poisson draw is an oracle returning a non-negative integer) on
+   non-negative inputs reports n = the requested / drawn total = the number of
+   events returned; every event is the relocated image of a candidate of the
+   CURRENT table that lies in the band and energy range of its source, has
+   non-zero mcweight / live-time / source weight, and satisfies the validity
+   ranges of its dataset *)
+Theorem C18_end_to_end : forall (rng : Type) (choice : rng -> list Z -> nat -> list nat * rng)
+  (post : Z -> Z -> Z -> Z -> list Z) (pois : rng -> Z -> Z * rng),
+  choice_contract choice ->
+  forall fuel shgs dss st0 g0 ops st g outs poisson mean st' g' n out,
+  (forall g m, 0 <= fst (pois g m)) ->
+  mc_init shgs dss = Ok st0 ->
+  mc_run rng choice post pois fuel st0 g0 ops = Ok (st, g, outs) ->
+  mc_step rng choice post pois fuel st g (OpGenerate poisson mean) = Ok (st', g', Some (n, out)) ->
+  (poisson = false -> 0 <= mean) ->
+  inputs_nonneg (g_shgs st) dss -> Exists (fun c => 0 < c_wn c) (g_tbl st) ->
+  st' = st /\ g_dss st = dss /\ construct (g_shgs st) dss = Ok (g_tbl st)
+  /\ n = (if poisson then fst (pois g mean) else mean)
+  /\ zsum (map (fun kv => zlen (snd kv)) out) = n
+  /\ NoDup (map fst out)
+  /\ forall ds evs ev, In (ds, evs) out -> In ev evs ->
+       exists d c, py_get dss ds = Ok d /\ In c (g_tbl st) /\ c_ds c = ds /\ 0 < c_wn c
+         /\ cand_sound (g_shgs st) dss c /\ cand_factors_nonzero (g_shgs st) dss c
+         /\ ev = post (c_ds c) (c_shg c) (c_src c) (c_ev c)
+         /\ in_ranges (d_rng d) ev.
+Proof. exact mc_end_to_end. Qed.
+Print Assumptions C18_end_to_end.
+
+(* the invariant is needed (seeded C18-5): a sampler left over from another
+   table makes a contract-abiding oracle return a zero-weight candidate *)
+Theorem C18_stale_sampler_refuted :
+  let tbl := [ {| c_ds := 0; c_ev := 0; c_shg := 0; c_src := 0; c_wn := 0; c_wd := 1 |};
+               {| c_ds := 0; c_ev := 1; c_shg := 0; c_src := 1; c_wn := 5; c_wd := 1 |} ] in
+  let dss := [ {| d_mc := []; d_lt := 1; d_rng := [] |} ] in
+  let stale := [3; 0] in
+  (forall d, In d (fst (stream_choice [[0%nat]] stale 1%nat)) -> 0 < nth d stale 0)
+  /\ generate_p _ stream_choice (fun ds shg src ev => [src]) 3 [[0%nat]] stale tbl dss 1
+     = Ok (1, [(0, [[0]])], []).
+Proof. exact stale_sampler_refuted. Qed.
+Print Assumptions C18_stale_sampler_refuted.
+
+(* END TO END, MultiDatasetSignalGenerator (rounding + correction + the loop over
+   the per-dataset generators + the dict merge, poisson or not): for per-dataset
+   generators that report and return what they are asked for, the reported n is
+   the requested / drawn total and equals the number of events in the merged
+   dictionary, whose keys are distinct *)
+Theorem C18_multi : forall (rng : Type) (choice : rng -> list Z -> nat -> list nat * rng)
+  (pois : rng -> Z -> Z * rng) (E : Type) (subgen : nat -> rng -> Z -> res (Z * list (Z * list E) * rng)),
+  choice_contract choice -> subgen_contract subgen ->
+  forall poisson g mean D ws n d g',
+  (forall g m, 0 <= fst (pois g m)) -> (poisson = false -> 0 <= mean) ->
+  0 < D -> Forall (fun x => 0 <= x) ws -> zsum ws = D ->
+  md_generate rng choice pois E subgen poisson g mean D ws = Ok (n, d, g') ->
+  n = (if poisson then fst (pois g mean) else mean)
+  /\ dict_total d = n /\ NoDup (map fst d).
+Proof. exact md_generate_spec. Qed.
+Print Assumptions C18_multi.
+
+(* ... and the MC generator is such a per-dataset generator *)
+Theorem C18_subgen_mc : forall (rng : Type) (choice : rng -> list Z -> nat -> list nat * rng)
+  (post : Z -> Z -> Z -> Z -> list Z) (fuel : nat) (tbls : nat -> list cand) (dsss : nat -> list dsT),
+  choice_contract choice ->
+  subgen_contract (fun j g c => generate rng choice post fuel g (tbls j) (dsss j) c).
+Proof. exact mc_subgen_contract. Qed.
+Print Assumptions C18_subgen_mc.
+
 (* ---- non-vacuity *)
 (* an oracle meeting the contract exists *)
 Example C18_oracle_exists : choice_contract const_choice.
@@ -159,4 +283,57 @@ Proof.
   cbv zeta. repeat split; try (vm_compute; reflexivity).
   - repeat constructor; cbn; lia.
   - left. cbn. lia.
+Qed.
+
+(* batching: the guard 0 < bs is needed (bs = 0 raises, bs < 0 gives no batch at all);
+   the relocation loop on a concrete input (sources 10, 20, 30; rot = pairing) *)
+Example C18_batch_and_relocation_nonvacuous :
+  let h := {| h_src := [(0, None); (1, None); (0, None)]; h_hw := 2; h_er := None; h_flux := assocz [(1, 1)] |} in
+  let d := {| d_mc := [ {| e_sd := -10; e_en := 1; e_mw := 1 |}; {| e_sd := 0; e_en := 1; e_mw := 1 |};
+                        {| e_sd := 10; e_en := 1; e_mw := 1 |} ]; d_lt := 1; d_rng := [] |} in
+  cands_for_b 2 0 h 0 d = cands_for 0 h 0 d
+  /\ (exists t, cands_for 0 h 0 d = Ok t /\ map c_src t = [0; 1; 2])
+  /\ cands_for_b 0 0 h 0 d = Err ZeroDivision
+  /\ cands_for_b (-1) 0 h 0 d = Ok []
+  /\ post_process Z (Z * Z) (fun s e => (s, snd e)) [10; 20; 30] [2; 0; 2; 1] [(0, 100); (0, 101); (0, 102); (0, 103)]
+     = Ok [(30, 100); (10, 101); (30, 102); (20, 103)]
+  /\ post_process Z (Z * Z) (fun s e => (s, snd e)) [10; 20] [2] [(0, 100)] = Err IndexError.
+Proof. cbv zeta. repeat split; try (vm_compute; reflexivity). eexists. split; vm_compute; reflexivity. Qed.
+
+(* a history: construct, generate, change the sources, generate (stream oracle) *)
+Example C18_machine_nonvacuous :
+  let h1 := {| h_src := [(0, None)]; h_hw := 2; h_er := None; h_flux := assocz [(1, 1)] |} in
+  let h2 := {| h_src := [(10, Some 1); (0, Some 0)]; h_hw := 2; h_er := None; h_flux := assocz [(1, 1)] |} in
+  let dss := [ {| d_mc := [ {| e_sd := -10; e_en := 1; e_mw := 1 |}; {| e_sd := 0; e_en := 1; e_mw := 1 |};
+                            {| e_sd := 10; e_en := 1; e_mw := 1 |} ]; d_lt := 1; d_rng := [] |} ] in
+  exists st0 st outs,
+    mc_init [h1] dss = Ok st0
+    /\ mc_run _ stream_choice (fun ds shg src ev => [src; ev]) (fun g m => (m, g)) 3 st0 [[0%nat]; [0%nat; 0%nat]]
+              [OpGenerate false 1; OpChange [h2]; OpGenerate true 2] = Ok (st, [], outs)
+    /\ outs = [(1, [(0, [[0; 1]])]); (2, [(0, [[0; 2]; [0; 2]])])]
+    /\ map c_wn (g_tbl st) = [1; 0] /\ g_p st = [1; 0]
+    /\ inputs_nonneg [h2] dss /\ Exists (fun c => 0 < c_wn c) (g_tbl st).
+Proof.
+  cbv zeta. eexists. eexists. eexists. split; [vm_compute; reflexivity|].
+  split; [vm_compute; reflexivity|]. split; [reflexivity|]. split; [vm_compute; reflexivity|].
+  split; [vm_compute; reflexivity|]. split.
+  - unfold inputs_nonneg. split; repeat constructor; cbn; try lia.
+    intros en. unfold assocz. destruct (en =? 1); lia.
+  - left. vm_compute. reflexivity.
+Qed.
+
+(* the merge of per-dataset dictionaries with colliding keys, poisson draw 4 *)
+Example C18_multi_nonvacuous :
+  md_generate _ stream_choice (fun g m => (4, g)) Z
+    (fun j g c => Ok (c, (if 0 <? c then [(Z.of_nat j mod 2, repeat (Z.of_nat j) (Z.to_nat c))] else []), g))
+    true [] 9 4 [1; 1; 2]
+  = Ok (4, [(0, [0; 2; 2]); (1, [1])], [])
+  /\ subgen_contract (fun (j : nat) (g : list (list nat)) (c : Z) =>
+        Ok (c, (if 0 <? c then [(Z.of_nat j mod 2, repeat (Z.of_nat j) (Z.to_nat c))] else []), g)).
+Proof.
+  split; [vm_compute; reflexivity|].
+  intros j g c n d g' Hc H. injection H as En Ed Eg. subst n d g'. split; [reflexivity|].
+  unfold dict_total. destruct (0 <? c) eqn:E; cbn [map snd zsum fold_right].
+  - unfold zlen. rewrite repeat_length. lia.
+  - apply Z.ltb_ge in E. lia.
 Qed.
